@@ -103,6 +103,9 @@ func genTree(r *rand.Rand, depth int, root bool) *tnode {
 		if r.Intn(12) == 0 {
 			cnt = 0
 		}
+		if n.Kind == "dir" && r.Intn(4) == 0 {
+			n.Writer = "hand-unsorted" // a plain directory block whose links are not in name order
+		}
 		names := genTreeNames(r, cnt)
 		if r.Intn(3) == 0 {
 			// names longer than any filesystem allows
@@ -216,6 +219,24 @@ func buildTree(st *store.Store, n *tnode, path []string) error {
 			return err
 		}
 		n.Cid, n.Size = c, sz
+		return nil
+	}
+	if n.Kind == "dir" && n.Writer == "hand-unsorted" {
+		// written by a non-canonicalising encoder: go-codec-dagpb decodes it keeping the stored order
+		dt := pb.Data_Directory
+		var links []pbLinkSpec
+		var total uint64
+		for _, c := range n.Children {
+			links = append(links, pbLinkSpec{Name: strp(c.Name), Tsize: u64p(c.Size), Cid: c.Cid})
+			total += c.Size
+		}
+		sort.Slice(links, func(i, j int) bool { return *links[i].Name > *links[j].Name }) // reverse order
+		if len(links) > 2 {
+			links[0], links[len(links)/2] = links[len(links)/2], links[0]
+		}
+		blk := encodePB(mustMarshal(&pb.Data{Type: &dt}), true, links)
+		n.Cid = st.PutBlock(1, cid.DagProtobuf, blk)
+		n.Size = total + uint64(len(blk))
 		return nil
 	}
 	var l ipld.Link
